@@ -53,6 +53,23 @@ CompleteIdOp(C, env, c, id) ==
      ELSE Append(C, [kind |-> "PROD", id |-> id, cr |-> "-", srv |-> "-", src |-> c, v |-> unb,
                      cm |-> CompletionComment])
 
+(***************************************************************************)
+(* Demand lines (Components::from_str, BuildingNeeds::add): the DEMANDA    *)
+(* lines of a file are read in file order and each one is added, step by   *)
+(* step, to what is stored for its service; a service without any line has *)
+(* no demand (<<>>).  One AddNeed per line; the closed form C05 promises   *)
+(* is the step-wise sum of the declared lines of the service, whatever     *)
+(* their order, sign or running total.  Values are plain integers here.    *)
+(***************************************************************************)
+NoNeeds == [s \in NeedSrv |-> <<>>]
+AddNeed(st, x) ==
+  [st EXCEPT ![x.srv] = IF @ = <<>> THEN x.v ELSE [t \in 1..Len(x.v) |-> @[t] + x.v[t]]]
+RECURSIVE ReadNeeds(_, _)
+ReadNeeds(st, lines) == IF lines = <<>> THEN st ELSE ReadNeeds(AddNeed(st, Head(lines)), Tail(lines))
+DeclaredNeed(lines, s) ==
+  LET I == {i \in 1..Len(lines) : lines[i].srv = s} IN
+  IF I = {} THEN <<>> ELSE [t \in 1..Len(lines[CHOOSE i \in I : TRUE].v) |-> ISumSet(LAMBDA i : lines[i].v[t], I)]
+
 \* ids the loop visits for carrier c
 CompleteIds(C, c) == Ids(C, EnvIdx(C, c))
 
